@@ -11,13 +11,24 @@ from rs2v import build
 # which translated functions carry which property
 DECODERS = ['gen_header_read', 'gen_flags_read', 'gen_decode_avp', 'gen_greedy', 'gen_data_read', 'gen_ctrl_read', 'gen_msg_read', 'gen_try_read']
 PER_TYPE = ['gen_dec_%s' % k for k in sorted(build.MODEL_DEC)]
-RELEVANT = {p: DECODERS + PER_TYPE for p in ('C01', 'C02', 'C05', 'C08', 'C10', 'C15', 'C20')}
+KINDS = sorted(build.MODEL_DEC) + ['Hidden', 'SequencingRequired']
+ENCODERS = ['gen_enc_avp', 'gen_enc_ctrl', 'gen_enc_data', 'gen_flags_new'] + ['gen_wr_%s' % k for k in KINDS] + ['gen_len_%s' % k for k in KINDS]
+ALL = DECODERS + PER_TYPE + ENCODERS
+RELEVANT = {p: DECODERS + PER_TYPE for p in ('C01', 'C02', 'C05', 'C08', 'C15', 'C20')}
 RELEVANT['C14'] = ['gen_flags_read', 'gen_msg_read', 'gen_try_read', 'gen_ctrl_read', 'gen_data_read']
-RELEVANT['C03'] = DECODERS + PER_TYPE
-RELEVANT['C04'] = ['gen_flags_read', 'gen_msg_read', 'gen_data_read']
-RELEVANT['C16'] = ['gen_decode_avp', 'gen_dec_MessageType', 'gen_dec_ResultCode', 'gen_dec_ProxyAuthenType']
+RELEVANT['C03'] = ALL
+RELEVANT['C10'] = ALL
+RELEVANT['C04'] = ['gen_flags_read', 'gen_msg_read', 'gen_data_read', 'gen_enc_data', 'gen_flags_new']
+RELEVANT['C06'] = ENCODERS
+RELEVANT['C07'] = ENCODERS
+RELEVANT['C09'] = ENCODERS
+RELEVANT['C16'] = ['gen_decode_avp', 'gen_dec_MessageType', 'gen_dec_ResultCode', 'gen_dec_ProxyAuthenType', 'gen_wr_MessageType',
+                   'gen_wr_ResultCode', 'gen_wr_ProxyAuthenType']
+RELEVANT['C17'] = ['gen_dec_%s' % k for k in ('FramingCapabilities', 'BearerCapabilities', 'BearerType', 'FramingType')] + \
+                  ['gen_wr_%s' % k for k in ('FramingCapabilities', 'BearerCapabilities', 'BearerType', 'FramingType')]
 RELEVANT['C13'] = ['gen_decode_avp'] + PER_TYPE
-RELEVANT['C11'] = ['gen_decode_avp'] + PER_TYPE
+RELEVANT['C11'] = ['gen_decode_avp', 'gen_enc_avp'] + PER_TYPE + ['gen_wr_%s' % k for k in KINDS]
+RELEVANT['C12'] = ['gen_enc_avp'] + ['gen_wr_%s' % k for k in KINDS]
 
 
 def _coqc(path, qdir):
@@ -37,31 +48,61 @@ def check(repo, names, workdir):
     cdir = os.path.join(lib.CACHE, 'srctie')
     os.makedirs(cdir, exist_ok=True)
     cp = os.path.join(cdir, 'fn-' + key + '.json')
+    transient = []
     if os.path.exists(cp):
         allres = json.load(open(cp))
     else:
         os.makedirs(workdir, exist_ok=True)
         allres = {}
+        transient = []
         # one file per function: the generated definition followed by its tie lemma
         pending = {n: list(levels) for n, levels in ties.items()}
         while pending:
             procs = []
-            for n, levels in pending.items():
+            items = list(pending.items())
+            running = []
+            # at most NPROC compilations at a time
+
+            def start(n, levels):
                 lvl, text = levels[0]
                 tp = os.path.join(workdir, 'Tie_%s.v' % n)
                 open(tp, 'w').write(build.HEADER + defs[n] + text)
-                procs.append((n, lvl, tp, _coqc(tp, workdir)))
-            nxt = {}
-            for n, lvl, tp, pr in procs:
+                return (n, lvl, tp, _coqc(tp, workdir))
+            outs = {}
+            while items or running:
+                while items and len(running) < lib.NPROC:
+                    n, levels = items.pop(0)
+                    running.append(start(n, levels))
+                n, lvl, tp, pr = running.pop(0)
                 try:
                     out, _ = pr.communicate(timeout=900)
                 except subprocess.TimeoutExpired:
                     pr.kill()
                     out = 'timeout'
+                outs[n] = out
+                procs.append((n, lvl, tp, pr))
+            nxt = {}
+            for n, lvl, tp, pr in procs:
+                out = outs[n]
+                if pr.returncode is not None and pr.returncode < 0:
+                    out += ' timeout (killed by signal %d)' % -pr.returncode
+                if pr.returncode != 0 and any(x in out for x in ('inconsistent assumptions', 'Compiled library', 'Cannot load', 'bad version',
+                                                                     'No such file', 'Cannot find a physical path', 'timeout', 'Out of memory')):
+                    # the compiled theory was being rebuilt under us (another check), or a resource limit: once more, alone
+                    with lib.Lock('coq'):
+                        pr = _coqc(tp, workdir)
+                        try:
+                            out, _ = pr.communicate(timeout=900)
+                        except subprocess.TimeoutExpired:
+                            pr.kill()
+                            out = 'timeout'
+                    if pr.returncode != 0 and any(x in out for x in ('inconsistent assumptions', 'Compiled library', 'Cannot load', 'bad version',
+                                                                         'No such file', 'Cannot find a physical path', 'timeout', 'Out of memory')):
+                        allres[n] = 'not checked (coqc could not run: %s)' % ' '.join(out.split())[-120:]
+                        transient.append(n)
+                        continue
                 if pr.returncode == 0:
                     allres[n] = 'tied (%s)' % lvl
-                elif 'Lemma tie' not in out and 'tie' not in out.split('Error')[0][-40:] and ('Definition' in out or 'has type' in out) and False:
-                    allres[n] = 'generated definition does not type-check'
                 elif len(pending[n]) > 1:
                     nxt[n] = pending[n][1:]
                 else:
@@ -69,7 +110,8 @@ def check(repo, names, workdir):
             pending = nxt
         for n, why in fails.items():
             allres[n] = 'not translated: %s' % why[:160]
-        json.dump(allres, open(cp, 'w'))
+        if not transient:
+            json.dump(allres, open(cp, 'w'))
         for f in os.listdir(workdir):
             if f.startswith(('Tie_', 'Gen.', '.Tie_', '.Gen')):
                 try:
@@ -82,5 +124,5 @@ def check(repo, names, workdir):
 if __name__ == '__main__':
     import time
     t0 = time.time()
-    r = check(sys.argv[1] if len(sys.argv) > 1 else lib.REPO, DECODERS + PER_TYPE, os.path.join(lib.CACHE, 'work', 'srctie2-%d' % os.getpid()))
+    r = check(sys.argv[1] if len(sys.argv) > 1 else lib.REPO, ALL, os.path.join(lib.CACHE, 'work', 'srctie2-%d' % os.getpid()))
     print(json.dumps(r, indent=1), round(time.time() - t0, 1))
